@@ -448,7 +448,6 @@ pub fn replay(doc: &Value) -> i32 {
         match single_mapping_violates(&mapping, &class, &seeds) {
             Some(msg) => {
                 println!("reproduced: class={} :: {}", class, msg);
-                println!("VIOLATION property=C14 replay=(replayed)");
                 1
             }
             None => {
@@ -475,7 +474,6 @@ pub fn replay(doc: &Value) -> i32 {
         match compare(&children, &mut st).into_iter().find(|v| v.0 == class) {
             Some(v) => {
                 println!("reproduced: class={} :: {}", v.0, v.1);
-                println!("VIOLATION property=C14 replay=(replayed)");
                 1
             }
             None => {
